@@ -125,8 +125,28 @@ class Interrupt:
         self.fired = False
         self.where = None
 
+    def _eligible(self, frame):
+        """An interruption is injected only where a synchronous failure is plausible and
+        where correct code is not already cleaning up: at a line that contains a call,
+        not inside (or below) an `except` / `finally` block, and not while an exception
+        is being handled.  Code that restores its state in try/finally is therefore never
+        blamed for an exception that arrives inside the finally block itself."""
+        calls, protected = line_info(frame.f_code.co_filename)
+        ln = frame.f_lineno
+        if ln not in calls or ln in protected:
+            return False
+        if sys.exc_info()[0] is not None:
+            return False
+        f = frame.f_back
+        while f is not None:
+            fn = f.f_code.co_filename
+            if fn in self.files and f.f_lineno in line_info(fn)[1]:
+                return False
+            f = f.f_back
+        return True
+
     def _local(self, frame, event, arg):
-        if event == "line":
+        if event == "line" and self._eligible(frame):
             self.count += 1
             if self.at is not None and self.count == self.at and not self.fired:
                 self.fired = True
@@ -146,3 +166,32 @@ class Interrupt:
     def __exit__(self, *exc):
         sys.settrace(None)
         return False
+
+
+_LINE_INFO = {}
+
+
+def line_info(filename):
+    """(lines containing a call, lines inside except/finally blocks) of a source file."""
+    if filename in _LINE_INFO:
+        return _LINE_INFO[filename]
+    import ast
+    calls, protected = set(), set()
+    try:
+        with io.open(filename, "rb") as f:
+            tree = ast.parse(f.read(), filename)
+        for node in ast.walk(tree):
+            if isinstance(node, ast.Call):
+                calls.update(range(node.lineno, (node.end_lineno or node.lineno) + 1))
+            if isinstance(node, (ast.Try, getattr(ast, "TryStar", ast.Try))):
+                for h in node.handlers:
+                    protected.update(range(h.lineno, (h.end_lineno or h.lineno) + 1))
+                for st in node.finalbody:
+                    protected.update(range(st.lineno, (st.end_lineno or st.lineno) + 1))
+            if isinstance(node, ast.With):
+                # the header of a with statement: __enter__/__exit__ bookkeeping
+                protected.add(node.lineno)
+    except (OSError, SyntaxError):
+        pass
+    _LINE_INFO[filename] = (calls, protected)
+    return _LINE_INFO[filename]
